@@ -160,6 +160,16 @@ def run(ctx):
                 elif any(a[0] in ('ROW', 'GROUP') for a in v):
                     if real:
                         n_use += 1
+            elif ev.kind == 'yield':
+                v = ev.info.get('value') or frozenset()
+                if has_sentinel(v) and any(rowlike(a) for a in v):
+                    if real:
+                        n_use += 1
+                    rep.violated(
+                        'R20.2', fn, norm(ev.node),
+                        'the yielded value may still be the pre-loop sentinel / the default of next() (zero data rows): a '
+                        'table without data rows then yields a spurious None row', ev.node,
+                        detail={'value': fmt_value(v)})
             elif ev.kind == 'order':
                 l, r = ev.info['left'], ev.info['right']
                 if (has_csent(l) and has_real_key(r)) or (has_csent(r) and has_real_key(l)):
